@@ -15,7 +15,12 @@ SPEC = {'parse_scope_name': 'scope_name', 'parse_formal': 'formal', 'parse_forma
         'parse_signature': 'signature', 'parse_event': 'event', 'parse_events': 'events', 'parse_port': 'port',
         'parse_ports': 'ports', 'parse_instance': 'instance', 'parse_instances': 'instances',
         'parse_endpoint': 'endpoint', 'parse_binding': 'binding', 'parse_bindings': 'bindings', 'parse_fields': 'fields',
-        'parse_range': 'range_', 'parse_data': 'data'}
+        'parse_range': 'range_', 'parse_data': 'data', 'parse_namespace': 'namespace', 'parse_root': 'root',
+        'parse_comment': 'comment', 'parse_import': 'import_', 'parse_filename': 'filename',
+        'parse_enum': 'enum', 'parse_subint': 'subint', 'parse_extern': 'extern', 'parse_foreign': 'foreign',
+        'parse_component': 'component', 'parse_system': 'system', 'parse_types': 'types', 'parse_interface': 'interface'}
+WITH_PARENT = ('parse_enum', 'parse_subint', 'parse_extern', 'parse_foreign', 'parse_component', 'parse_system',
+               'parse_types', 'parse_interface')
 
 
 def lst(cls, elements):
@@ -35,7 +40,26 @@ def corpus():
     ep = [{'<class>': 'end-point', 'port_name': 'p'}, {'<class>': 'end-point', 'port_name': 'q', 'instance_name': 'x'},
           {'<class>': 'end-point', 'port_name': 'r', 'instance_name': 'y'}]
     bd = [{'<class>': 'binding', 'left': a, 'right': b} for a in ep for b in ep if a is not b]
-    return {
+    en = [M.enum('R', ['Ok', 'No']), M.enum('My.E', [])]
+    si = [M.subint('Level', 0, 3)]
+    ex = [M.extern('T', 'int'), M.extern('U', 'std::string')]
+    pts = [lst('ports', []), lst('ports', pt)]
+    ty = [lst('types', []), lst('types', en + si + [{'<class>': 'other', 'name': sn[0]}] + en[::-1])]
+    decl = {
+        'parse_enum': en, 'parse_subint': si, 'parse_extern': ex,
+        'parse_foreign': [{'<class>': 'foreign', 'name': sn[0], 'ports': p} for p in pts],
+        'parse_component': [{'<class>': 'component', 'name': sn[k], 'ports': p} for k, p in enumerate(pts)],
+        'parse_system': [{'<class>': 'system', 'name': sn[2], 'ports': pts[1], 'instances': lst('instances', ins),
+                          'bindings': lst('bindings', bd[:3])}],
+        'parse_types': ty,
+        'parse_interface': [M.interface('I', ev, en + si), M.interface('My.J', [], [])],
+        'parse_namespace': [M.namespace('N', []), M.namespace('A.B', ex + [7, 'x'])],
+        'parse_root': [M.root(ex), dict(M.root([]), comment={'<class>': 'comment', 'string': 'hello'})],
+        'parse_comment': [{'<class>': 'comment', 'string': 'c'}],
+        'parse_import': [{'<class>': 'import', 'name': 'a.dzn'}],
+        'parse_filename': [{'<class>': 'file-name', 'name': 'f.dzn'}],
+    }
+    return dict(decl, **{
         'parse_scope_name': sn, 'parse_formal': fm, 'parse_formals': fms, 'parse_signature': sig, 'parse_event': ev,
         'parse_events': [lst('events', []), lst('events', ev), lst('events', ev[::-1])],
         'parse_port': pt, 'parse_ports': [lst('ports', []), lst('ports', pt), lst('ports', pt[::-1] + pt[:1])],
@@ -44,7 +68,14 @@ def corpus():
         'parse_fields': [lst('fields', []), lst('fields', ['Ok', 'No', 'Ok'])],
         'parse_range': [{'<class>': 'range', 'from': 0, 'to': 3}, {'<class>': 'range', 'from': -5, 'to': -5}],
         'parse_data': [{'<class>': 'data', 'value': 'int'}, {'<class>': 'data', 'value': ''}],
-    }
+    })
+
+
+def parents():
+    from dznpy.scoping import NamespaceTree, ns_ids_t
+    root = NamespaceTree()
+    a = NamespaceTree(root, ns_ids_t('A'))
+    return [root, a, NamespaceTree(a, ns_ids_t('B.C'))]
 
 
 def check_one(inp):
@@ -55,14 +86,16 @@ def check_one(inp):
     for k, e in enumerate(corpus()[fn]):
         if inp.get('case') is not None and inp['case'] != k:
             continue
-        outs = []
-        for f in (getattr(J, fn), getattr(S, SPEC[fn])):
-            try:
-                outs.append(('return', f(e)))
-            except Exception as ex:  # noqa
-                outs.append(('raise', type(ex).__name__, str(ex)))
-        if outs[0] != outs[1]:
-            fail(f'{fn} [case {k}] on {e!r}: the real parser gives\n{outs[0]!r}\nthe contract requires\n{outs[1]!r}')
+        for extra in ([(t,) for t in parents()] if fn in WITH_PARENT else [()]):
+            outs = []
+            for f in (getattr(J, fn), getattr(S, SPEC[fn])):
+                try:
+                    outs.append(('return', f(e, *extra)))
+                except Exception as ex:  # noqa
+                    outs.append(('raise', type(ex).__name__, str(ex)))
+            if outs[0] != outs[1]:
+                fail(f'{fn} [case {k}] on {e!r} {extra!r}: the real parser gives\n{outs[0]!r}\nthe contract requires\n'
+                     f'{outs[1]!r}')
 
 
 if __name__ == '__main__':
